@@ -1,5 +1,162 @@
 import GT.Base.JsonQ
-open Lean GT.J
+import GT.Model.Coxeter
+open Lean GT.J GT.Cox
 namespace GT.Driver.C08
-def ops : List (String × Handler) := []
+
+/-- integer matrix (entries sent as JSON integers or strings) -/
+def intMat (n : Nat) (j : Json) : R (Matrix (Fin n) (Fin n) ℤ) := do
+  let rows ← arr j
+  if rows.size ≠ n then throw "bad shape"
+  let a ← rows.mapM fun r => do (← arr r).mapM int
+  if a.any (fun r => r.size ≠ n) then throw "bad shape"
+  return fun i j => (a[i.1]!)[j.1]!
+
+/-- the supplied cosine table `x ↦ cos(π/x)` as a list of `[x, value]` pairs -/
+def cosTable (j : Json) : R (ℚ → Option ℚ) := do
+  let ps ← (← arr j).mapM fun p => do
+    let a ← qArr p
+    if a.size ≠ 2 then throw "bad cos table"
+    return (a[0]!, a[1]!)
+  return fun x => (ps.toList.lookup x)
+
+def matsf (n : Nat) (j : Json) (k : String) : R (Array (DMat n n ℚ)) := do
+  let a ← arr (← field j k)
+  a.mapM fun m => do return DMat.ofMatrix (← mat n n m)
+
+instance {n : Nat} : Inhabited (DMat n n ℚ) := ⟨⟨#[]⟩⟩
+
+def ofD {n : Nat} (A : DMat n n ℚ) : Json := ofQArr2 A.a
+
+def maxAbs {n : Nat} (A : DMat n n ℚ) : ℚ :=
+  A.a.foldl (fun acc r => r.foldl (fun acc x => max acc |x|) acc) 0
+
+def fins (n : Nat) : List (Fin n) := List.finRange n
+
+/-- the cosine form from the Coxeter matrix `M` and the supplied cosine table `cos` -/
+def formOf (n : Nat) (j : Json) : R (DMat n n ℚ) := do
+  let M ← intMat n (← field j "M")
+  let tab ← cosTable (← field j "cos")
+  -- every key the model will ask for must be supplied
+  for i in fins n do
+    for k in fins n do
+      let x : ℚ := if M i k ≤ 0 then 1 / 2 else (M i k : ℚ)
+      if (tab x).isNone then throw "missing-cosine"
+  return DMat.ofMatrix (cosineForm (fun x => (tab x).getD 0) M)
+
+/-- `CoxeterGroup.bilinear_form()` from the Coxeter matrix and supplied cosines -/
+def formOp (j : Json) : R Json := do
+  let n ← natf j "n"
+  return ofD (← formOf n j)
+
+/-- the form: either given (`B`) or built from `M` and `cos` -/
+def getB (n : Nat) (j : Json) : R (Matrix (Fin n) (Fin n) ℚ) := do
+  match j.getObjVal? "B" with
+  | .ok b => mat n n b
+  | .error _ => return (← formOf n j).toMatrix
+
+/-- generators of `cartan_representation(C)` / `geometric_representation()` /
+`canonical_representation()` / `geometric_representation(diagonalize=True)` -/
+def gensOp (j : Json) : R Json := do
+  let n ← natf j "n"
+  let kind ← strf j "kind"
+  match kind with
+  | "cartan" =>
+    let C ← matf n n j "C"
+    return .arr ((fins n).map fun i => ofD (DMat.ofMatrix (refl C i))).toArray
+  | "vinberg" =>
+    -- `tits_vinberg_rep(parameters)`
+    let B ← getB n j
+    let M ← intMat n (← field j "M")
+    let P ← matf n n j "P"
+    let C := DMat.ofMatrix (cartanMatrix B M P)
+    return .arr ((fins n).map fun i => ofD (DMat.ofMatrix (refl C.toMatrix i))).toArray
+  | "geom" =>
+    let B ← getB n j
+    return .arr ((fins n).map fun i => ofD (DMat.ofMatrix (geomRep B i))).toArray
+  | "canon" =>
+    -- `canonRep B i = (geomRep B i)ᵀ` by `GT.C08.canonRep_eq_transpose` (needs `B_ii = 1`)
+    let B ← getB n j
+    if (fins n).any (fun i => B i i ≠ 1) then throw "diag-not-one"
+    return .arr ((fins n).map fun i => ofD (DMat.ofMatrix (geomRep B i).transpose)).toArray
+  | "hyp" =>
+    let B ← getB n j
+    let W := DMat.ofMatrix (← matf n n j "W")
+    let Wi := DMat.ofMatrix (← matf n n j "Winv")
+    return .arr ((fins n).map fun i =>
+      ofD (DMat.ofMatrix (hypRep B W.toMatrix Wi.toMatrix i))).toArray
+  | "canonhyp" =>
+    -- `canonical_representation(diagonalize=True)`: dual of the diagonalised generator; a generator is an
+    -- involution (`GT.C08.relations_transfer`), so its inverse transpose is its transpose
+    let B ← getB n j
+    if (fins n).any (fun i => B i i ≠ 1) then throw "diag-not-one"
+    let W := DMat.ofMatrix (← matf n n j "W")
+    let Wi := DMat.ofMatrix (← matf n n j "Winv")
+    return .arr ((fins n).map fun i =>
+      ofD (DMat.ofMatrix (hypRep B W.toMatrix Wi.toMatrix i).transpose)).toArray
+  | _ => throw "unknown kind"
+
+/-- `Representation._word_value` on supplied generator matrices -/
+def wordOp (j : Json) : R Json := do
+  let n ← natf j "n"
+  let gs ← matsf n j "gens"
+  if gs.size ≠ n then throw "need n generators"
+  let w ← (← arr (← field j "word")).mapM nat
+  if w.any (fun k => k ≥ n) then throw "KeyError"
+  let word : List (Fin n) := w.toList.filterMap fun k => if h : k < n then some ⟨k, h⟩ else none
+  return ofD (wordProdD (fun i => gs[i.1]!) word)
+
+def subOne {n : Nat} (A : DMat n n ℚ) : DMat n n ℚ := DMat.ofMatrix (A.toMatrix - 1)
+
+/-- relation residuals, evaluated exactly on supplied generator matrices (the implementation's
+output): `max|gᵢ² − 1|`, `max|(gᵢgⱼ)^m − 1|` over finite labels, `min_{0<k<m} max|(gᵢgⱼ)^k − 1|`
+(order exactly `m`), `max|gᵢᵀ F gᵢ − F|` for a supplied form `F`, `max|Winv·W − 1|`,
+`max|Wᵀ B W − J|` -/
+def residOp (j : Json) : R Json := do
+  let n ← natf j "n"
+  let gs ← matsf n j "gens"
+  if gs.size ≠ n then throw "need n generators"
+  let M ← intMat n (← field j "M")
+  let g : Fin n → DMat n n ℚ := fun i => gs[i.1]!
+  let mut invol : ℚ := 0
+  let mut braid : ℚ := 0
+  let mut order : Option ℚ := none
+  for i in fins n do
+    invol := max invol (maxAbs (subOne ((g i).mul (g i))))
+    for k in fins n do
+      if i < k ∧ M i k ≥ 2 then
+        let m := (M i k).toNat
+        let P := (g i).mul (g k)
+        -- acc runs through P^1, …, P^m  (= `powD P e`, computed incrementally)
+        let mut acc := P
+        for e in List.range m do
+          let r := maxAbs (subOne acc)
+          if e + 1 < m then
+            order := some (match order with | none => r | some o => min o r)
+            acc := acc.mul P
+          else
+            braid := max braid r
+  let mut out : List (String × Json) := [("invol", ofQ invol), ("braid", ofQ braid),
+    ("order", match order with | none => Json.null | some o => ofQ o)]
+  match j.getObjVal? "F" with
+  | .ok f =>
+    let F ← mat n n f
+    let mut fr : ℚ := 0
+    for i in fins n do
+      fr := max fr (maxAbs (DMat.ofMatrix (formResidual F (g i).toMatrix)))
+    out := out ++ [("form", ofQ fr)]
+  | .error _ => pure ()
+  match j.getObjVal? "W" with
+  | .ok w =>
+    let W := DMat.ofMatrix (← mat n n w)
+    let Wi := DMat.ofMatrix (← matf n n j "Winv")
+    let B ← getB n j
+    let J ← matf n n j "J"
+    let WtBW := ((W.transpose.mul (DMat.ofMatrix B)).mul W)
+    out := out ++ [("winv", ofQ (maxAbs (subOne (Wi.mul W)))),
+      ("diag", ofQ (maxAbs (DMat.ofMatrix (WtBW.toMatrix - J))))]
+  | .error _ => pure ()
+  return Json.mkObj out
+
+def ops : List (String × Handler) :=
+  [("c08.form", formOp), ("c08.gens", gensOp), ("c08.word", wordOp), ("c08.resid", residOp)]
 end GT.Driver.C08
